@@ -86,6 +86,18 @@ class IsaGen:
         for i, r in enumerate(regs):
             alts.append({"pat": [("lit", r)], "prod": lit_sized(rng, nbits, i), "size": nbits,
                          "name": "%s.%d" % (name, i)})
+        if rng.random() < 0.25:
+            # wide sub-rule family: every alternative yields 16 bits, one takes an address-sized parameter
+            nbits = 16
+            alts = [{"pat": [("lit", r)], "prod": lit_sized(rng, 16, 0xff00 + i), "size": 16, "name": "%s.%d" % (name, i)}
+                    for i, r in enumerate(regs[:2])]
+            pat = [("param", "v", rng.choice([("u", 16), ("i", 16), None]))]
+            prod = ("var", 0, ["v"]) if pat[0][2] else ("sshort", ("var", 0, ["v"]), num(16))
+            if rng.random() < 0.5:
+                pat = [("lit", "#")] + pat
+            alts.append({"pat": pat, "prod": prod, "size": 16, "name": "%s.%d" % (name, len(alts))})
+            self.subs[name] = alts
+            return nbits
         if rng.random() < 0.4:
             # an alternative with a parameter: #{v: uN} or {v: uN}
             pat = [("param", "v", ("u", nbits))]
@@ -455,6 +467,10 @@ class ProgGen:
             if v == value:
                 return n
         name = "k%d" % len(self.consts)
+        if self.rng.random() < 0.08:
+            cand = self.rng.choice(["p", "q", "r", "a", "v", "val0", "imm1", "dst0", "src1"])
+            if cand not in self.consts and cand.lower() not in [x.lower() for x in REGS + MNEMS]:
+                name = cand
         self.consts[name] = value
         return name
 
@@ -476,7 +492,8 @@ class ProgGen:
                 typ = el[2]
                 inr = in_range if in_range is not None else True
                 r = rng.random()
-                if typ is None and self.labels and r < 0.45:
+                wide = typ is not None and typ[1] >= 16 and typ[0] != "s" or typ is not None and typ[1] >= 17
+                if (typ is None and self.labels and r < 0.45) or (wide and self.labels and r < 0.3):
                     lab = rng.choice(self.labels)
                     toks.append(self.label_ref_tok(lab))
                 elif typ is None and r < 0.55:
